@@ -88,10 +88,20 @@ def handleSched (case impl : List String) : String :=
   | some ((a, g), []) =>
     match (Proto.implD.run impl) with
     | some (obs, []) =>
-      let c := Proto.choicesOf a.adopt obs.trace
-      let (s, out) := Run.build g a c
+      let segs := Proto.segments obs.trace
+      let seg1 := segs.headD []
+      let c1 := Proto.choicesOf a.adopt seg1
+      let (s1, out1) := Run.build g a c1
+      -- a reload continues with a fresh Work on the (here: unchanged) manifest
+      let (tr, out) := match out1 with
+        | .reload n =>
+          let seg2 := (segs.drop 1).headD []
+          let c2 := Proto.choicesOf a.adopt seg2
+          let (s2, out2) := Run.buildReloaded g a c2 n
+          (s1.trace.reverse ++ s2.trace.reverse, out2)
+        | o => (s1.trace.reverse, o)
       let v := Mon.verdicts g a (obs.result.splitOn " ") obs.trace
-      Proto.showOutcome out ++ " " ++ Proto.showTrace s.trace.reverse ++ mons v.toList
+      Proto.showOutcome out ++ " " ++ Proto.showTrace tr ++ mons v.toList
     | _ => "bad-impl"
   | _ => "bad-case"
 
@@ -291,6 +301,29 @@ def maskErrLine (toks : List String) : List String :=
     | none => toks
   | _ => toks
 
+/-- C14 on an observed dump: no file is among the outputs of two different builds, and every
+    output's recorded producer is that build.  (Re-parses the harness's `ok F .. B ..` dump.) -/
+def singleProducerOk (toks : List String) : Bool :=
+  let p : P Bool := do
+    kw "ok"; kw "F"
+    let files ← counted (do let _ ← tok; let inp ← optNat; let _ ← counted nat; pure inp)
+    kw "B"
+    let builds ← counted (do
+      let _ ← tok; let _ ← tok; let _ ← tok; let _ ← tok; let _ ← tok; let _ ← tok
+      let _ ← tok; let _ ← tok; let _ ← tok; let _ ← tok; let _ ← tok
+      let nins ← nat; let _ ← nat; let _ ← nat; let _ ← nat
+      let _ ← many nat nins
+      let nouts ← nat; let _ ← nat
+      let outs ← many nat nouts
+      pure outs)
+    let fa := files.toArray
+    let ok := (List.range builds.length).all (fun b =>
+      (builds.getD b []).all (fun o => fa.getD o none == some b))
+    pure ok
+  match p.run toks with
+  | some (b, _) => b
+  | none => true
+
 /-- Mask the `L<line>` tokens: line numbers legitimately differ between spellings. -/
 def maskLines (toks : List String) : List String :=
   toks.map (fun t => if t.startsWith "L" && (t.drop 1).toString.toNat?.isSome then "L" else t)
@@ -372,7 +405,7 @@ def handle (case impl : List String) : String :=
     | some ((main, files), []) =>
       let diag := match impl with
         | "ok" :: _ => true | "perr" :: _ => true | "err" :: _ => true | _ => false
-      LoadDrv.runLoad main files ++ mons [("loadedOrDiagnostic", diag),
+      LoadDrv.runLoad main files ++ mons [("loadedOrDiagnostic", diag), ("singleProducer", LoadDrv.singleProducerOk impl),
         ("includeExtendsScope", LoadDrv.runLoadWith true main files == " ".intercalate impl)]
     | _ => "bad-case"
   | "loadpair" :: rest =>
@@ -394,7 +427,8 @@ def handle (case impl : List String) : String :=
       let inclOk := match implParts with
         | [a, _] => LoadDrv.runLoadWith true m1 f1 == a.trimAscii.toString
         | _ => false
-      r1 ++ " || " ++ r2 ++ mons [("spellingIndependent", spellingIndep), ("loadedOrDiagnostic", diag),
+      let sp := implParts.all (fun a => LoadDrv.singleProducerOk ((a.splitOn " ").filter (· ≠ "")))
+      r1 ++ " || " ++ r2 ++ mons [("spellingIndependent", spellingIndep), ("loadedOrDiagnostic", diag), ("singleProducer", sp),
         ("includeExtendsScope", inclOk)]
     | _ => "bad-case"
   | "dbw" :: rest => handleDbw rest
